@@ -63,8 +63,14 @@ Definition server_check (v : tval) : bool :=
   ok && all2 (fun lo o => N.eqb (s_outcome lo) (vn o)) (snd s) (vl (vnth 7 v)).
 
 (* ---- registries *)
+(* ops: [0;id;created(;client)] Register (optionally of an already authenticated connection), [1;id] Remove,
+        [2;id;client] UpdateAuth *)
 Definition dec_rop (v : tval) : rop :=
-  if vbool (vnth 0 v) then RRem (vn (vnth 1 v)) else RReg (vn (vnth 1 v)) (vn (vnth 2 v)).
+  match vn (vnth 0 v) with
+  | 0 => RReg (vn (vnth 1 v)) (vn (vnth 2 v))
+  | 1 => RRem (vn (vnth 1 v))
+  | _ => RAuth (vn (vnth 1 v)) (vn (vnth 2 v))
+  end%N.
 Definition keyset_eq (m : list (N * N)) (obs : list tval) : bool :=
   Nat.eqb (length m) (length obs) && forallb (fun k => has m (vn k)) obs.
 Definition is_refused (r : rres) : bool := match r with RRefused => true | _ => false end.
